@@ -31,6 +31,7 @@ func checkC20(c *Ctx) {
 		c20Units(c, p)
 		c20Tables(c, p)
 		c20UnitHasNumber(c, p)
+		c20ZeroHasText(c, p)
 	}
 	c.Floor["R20.1"] = 12
 	c.Floor["R20.2"] = 7
@@ -905,4 +906,55 @@ func c20UnitHasNumber(c *Ctx, p *Prog) {
 	}
 	r.Check(len(bad) == 0, "R20.2", "unit-has-number", p.FuncPos(sdf), fmt.Sprintf("each of the %d unit-writing blocks is followed by its integer digits on every path", n),
 		"a unit suffix can be left without its number ("+strings.Join(bad, "; ")+"): the lone suffix glues onto the component before it and the text parses back as another duration")
+}
+
+// c20ZeroHasText (R20.1): the zero duration has a text in both styles: with d = 0 (and each value of the style switch)
+// substituted, the decisions of the formatter are walked with constants folded; the path taken reaches a digit writer
+// before the return. (An empty text is rejected by the parser.) Only a path that is fully decided counts: when the
+// walk meets a condition it cannot fold the obligation is recorded as not evaluated.
+func c20ZeroHasText(c *Ctx, p *Prog) {
+	r := c.R
+	sdf := p.Func(p.Times, "shortDurFormat")
+	if sdf == nil {
+		return // reported elsewhere
+	}
+	var dPrm, fPrm *ssa.Parameter
+	for _, q := range sdf.Params {
+		switch q.Type().String() {
+		case "time.Duration":
+			dPrm = q
+		case "bool":
+			fPrm = q
+		}
+	}
+	if dPrm == nil || fPrm == nil {
+		r.OkTrivial("R20.1", "zero-has-text", p.FuncPos(sdf), "the formatter has no (duration, style) parameter pair: not evaluated")
+		return
+	}
+	for _, frac := range []bool{false, true} {
+		key := fmt.Sprintf("zero-has-text[frac=%v]", frac)
+		subst := map[ssa.Value]ssa.Value{
+			dPrm: ssa.NewConst(constant.MakeInt64(0), dPrm.Type()),
+			fPrm: ssa.NewConst(constant.MakeBool(frac), fPrm.Type()),
+		}
+		digit := false
+		t := walkDecisionInl(sdf.Blocks[0], map[string]bool{}, func(ssa.Value) (string, bool) { return "", false },
+			func(in ssa.Instruction) (string, bool) {
+				if cs, ok := in.(*ssa.Call); ok {
+					if cal := calleeOf(cs); cal != nil && cal.Pkg == p.Times && cal != sdf {
+						digit = true
+						return "digit", true
+					}
+				}
+				return "", false
+			}, func(ssa.CallInstruction) *ssa.Function { return nil }, subst, 0)
+		switch {
+		case digit:
+			r.Ok("R20.1", key, p.FuncPos(sdf), "for d = 0 the path taken calls a digit-writing helper")
+		case t.Kind == "return":
+			r.Bad("R20.1", key, p.FuncPos(sdf), "for the zero duration (fractional style %v) the formatter returns without having written anything: the text is empty, which the parser rejects", frac)
+		default:
+			r.OkTrivial("R20.1", key, p.FuncPos(sdf), "not evaluated: the walk for d = 0 stops at a condition it cannot fold (%s)", t.Kind)
+		}
+	}
 }
